@@ -20,7 +20,7 @@ use layout21raw::utils::Ptr;
 use layout21raw::{Library, Units};
 use serde_json::{json, Value};
 
-const MODE: CmpMode = CmpMode { lib_name: false, inst_list_with_names: false, annotations: false, abstracts: false };
+const MODE: CmpMode = CmpMode { lib_name: false, inst_list_with_names: false, annotations: false, abstracts: false, layout_name: false };
 
 // ---------------------------------------------------------------------------------------------------
 // shape alphabet
@@ -137,7 +137,7 @@ fn gen_lib(c: &mut Chooser) -> Case {
     let n = 1 + c.free(3, "cells");
     tags.push(["cells:1", "cells:2", "cells:3"][n - 1]);
     let order = perm(n, c.free((1..=n).product(), "listing-order"));
-    let mut cells: Vec<SCell> = (0..n).map(|k| SCell { name: CELL_NAMES[k].into(), layout: Some(SLayout::default()), abs: None }).collect();
+    let mut cells: Vec<SCell> = (0..n).map(|k| SCell { name: CELL_NAMES[k].into(), layout: Some(SLayout::default()), abs: None, view_names: None }).collect();
     for k in 0..n.saturating_sub(1) {
         let insts = gen_inst(c, k, CELL_NAMES[k + 1], &mut tags);
         let lay = cells[k].layout.as_mut().unwrap();
@@ -212,7 +212,7 @@ fn gen_lib(c: &mut Chooser) -> Case {
             let top = listed.iter_mut().find(|c| c.name == CELL_NAMES[0]).unwrap();
             top.layout.as_mut().unwrap().insts.push(SInst { name: "iblank".into(), cell: "blank".into(), loc: (-500, 40), reflect: false, angle: None });
         }
-        let bc = SCell { name: "blank".into(), layout: Some(SLayout::default()), abs: None };
+        let bc = SCell { name: "blank".into(), layout: Some(SLayout::default()), abs: None, view_names: None };
         if blank == 2 {
             listed.insert(0, bc);
         } else {
@@ -537,7 +537,7 @@ fn poly_spec(poly: &[P], named: bool) -> Spec {
     Spec {
         name: "polylib".into(),
         units: Units::Nano,
-        cells: vec![SCell { name: "p".into(), layout: Some(SLayout { shapes: vec![SShape { layer: 0, purpose: 0, geom: SGeom::Poly(poly.to_vec()), net: if named { Some("n1".into()) } else { None } }], ..Default::default() }), abs: None }],
+        cells: vec![SCell { name: "p".into(), layout: Some(SLayout { shapes: vec![SShape { layer: 0, purpose: 0, geom: SGeom::Poly(poly.to_vec()), net: if named { Some("n1".into()) } else { None } }], ..Default::default() }), abs: None, view_names: None }],
     }
 }
 fn poly_key(poly: &[P], named: bool) -> String {
